@@ -1,12 +1,16 @@
 """C16 -- Thrift IDL parser is total on arbitrary text.
 
-proof gate   : fam/idl/coq/Properties/C16.v  (C16_total, C16_fuel_sufficient, C16_depth ...)
+proof gate   : fam/idl/coq/Properties/C16.v  (C16_total, C16_depth, C16_nesting_range, C16_repetition_is_iteration)
 correspondence `idl-parse` : the extracted Gallina port of the 16 parser files (fam/idl/coq/Parser.v) and the real
                parsers (pilota-thrift-parser, through fam/idl/harness) run the same texts; the result lines
                (outcome class, bytes remaining, nom ErrorKind, canonical AST) are compared verbatim.
 oracle (implementation only): every text yields `OK ..` or `ERR E|F ..` -- no PANIC (catch_unwind, silent hook), no
                ABORT (the parse runs on a thread with a 2 MiB stack inside a child process; a stack overflow kills
-               the child, the supervisor reports it) for nesting <= 64, and an answer within the time bound.
+               the child, the supervisor reports it) for nesting <= 64 -- however long a flat repetition in the text is
+               (flat_cases: 10^3 .. 10^5 comment / white-space pieces at every blank place, every repeatable production
+               repeated) -- and an answer within the time bound.
+shape        : C16_repetition_is_iteration ties which combinator carries each repetition of the Rust code, and which
+               functions recurse, to the model (Generated/IdlReps.v from tools/extract_idl.py against Proofs/RepSites.v).
 """
 import importlib.util, os, random, time
 from collections import Counter
@@ -25,7 +29,22 @@ TRUSTED = [
     "hand-written Gallina port fam/idl/coq/{Comb,Parser}.v of nom 7.1.3 combinators and of the parser files: tied to the code by this "
     "differential run (outcome class, error position, ErrorKind and AST compared), not verified against the Rust text",
     "native stack bytes per recursion level are measured (harness, debug and release), not modelled; the model bounds the recursion depth",
+    "repetition sites: tools/extract_idl.py reads, per function of the parser files, the calls of nom's repeating combinators, the call "
+    "graph (X::parse, free functions, macro-defined functions; by regular expressions over the comment-stripped text) and whether each "
+    "combinator's body in the nom source named by Cargo.lock is a loop without self call; that a Rust `loop` keeps the stack flat is assumed "
+    "(and measured by the long flat repetition cases)",
 ]
+
+
+def unmapped_model_parsers():
+    """parser definitions of Parser.v that Proofs/RepSites.v does not map to a function of the source (its inventory of the
+    model is computed from the definitions it is given: a definition left out would not be counted)"""
+    import re
+    src = open(os.path.join(FAM.coq, "Parser.v"), encoding="utf-8").read()
+    rs = open(os.path.join(FAM.coq, "Proofs", "RepSites.v"), encoding="utf-8").read()
+    rows = " ".join(re.findall(r"ltac:\(row \"[^\"]*\" ([^;\]]*?)\)\s*[;\]]", rs))
+    defs = re.findall(r"^(?:Definition|Fixpoint|with)\s+(p_\w+|parse_file)\b", src, flags=re.M)
+    return [d for d in defs if not re.search(r"\b%s\b" % d, rows)], len(defs)
 
 
 def _extract_idl():
@@ -177,6 +196,153 @@ for _signs in ("", "-", "--", "---", "----", "+", "-+", "+-"):
         FIXED.append(("file", _tpl.replace("%s", _signs)))
 
 
+# --------------------------------------------------------------------------- long flat repetition (stack use must not grow with it)
+# Every repetition of the grammar (many0 / many1 / many_till / separated_list / escaped / the fold over a digit or sign run) is a
+# loop in the parser: the native stack needed depends on the NESTING only.  These texts keep the nesting small (or exactly at the
+# claimed 64) and make one repetition long: 10^3 .. 10^5 pieces.  A repetition implemented by self-recursion overflows the 2 MiB
+# worker stack on them and the supervisor reports the ABORT with the text.
+
+# one document that uses every production; `@` = a place where the grammar has opt(blank) (default: nothing), `^` = the same, but
+# the neighbours are two words (default: one space), `~` = a place where the grammar has a mandatory blank (default: one space)
+BLANK_TEMPLATE = (
+    "@include~'a.thrift';@cpp_include~\"b\"@namespace~rs~a@.@b@(@x@=@'y'@,@)@;@"
+    "typedef~map@<@i8@,@list@<@i8@>~cpp_type~'v'@>@(@a@=@'b'@)~T@(@a@=@'b'@,@k@=@\"v\"@)"
+    "const~set~cpp_type~'s'@<@i8@>~C@=@[@1@,@{@1@:@'s'@,@x@.@y@:@-0x1f@}@2.5e3@;@true@]@;@"
+    "enum~E@{@A@=@1@(@a@=@'b'@),@B@;@C@=@-2@}@(@a@=@'b'@)@"
+    "struct~S@{@1@:@required~i8^a@=@1@(@a@=@'b'@)@;@2@:@a@.@b^c^3@:@optional~string^s@=@'x'@,@}@(@a@=@'b'@);@"
+    "union~U@{@1@:@i8^a@}@exception~X@{@}@"
+    "service~V~extends~a@.@b@{@oneway~void~f@(@1@:@i8^a@,@2@:@i8^b@)@throws@(@1@:@E^e@)@(@a@=@'b'@);@i8~g@(@)@}@;@")
+BLANK_SLOTS = [i for i, ch in enumerate(BLANK_TEMPLATE) if ch in "@~^"]
+
+# (name, the text repeated, pieces of `blank` per repetition)
+BLANK_STYLES = [("hash", "#x\n", 1), ("slash", "//x\n", 1), ("block", "/*x*/", 1), ("block-space", "/**/ ", 2), ("space-block", " \n/**/", 2),
+                ("mixed", "#a\n/*b*/\t//c\n/**/", 4)]
+
+
+def blank_run(style, pieces):
+    _, unit, per = BLANK_STYLES[style % len(BLANK_STYLES)]
+    return unit * max(1, pieces // per)
+
+
+def fill_template(k, run):
+    """the template document with the blank place at template index k replaced by `run` (k = -1: the plain document)"""
+    return "".join((run if i == k else (" " if ch in "~^" else "")) if ch in "@~^" else ch for i, ch in enumerate(BLANK_TEMPLATE))
+
+
+def flat_repetitions(n):
+    """(what, entry, text): every repeatable production repeated n times, nesting <= 2; valid and cut short"""
+    out = [
+        ("includes", "file", "include 'a'\n" * n),
+        ("cpp-includes", "file", "cpp_include 'a';" * n),
+        ("namespaces", "file", "namespace rs a.b\n" * n),
+        ("items-typedef", "file", "typedef i8 T\n" * n),
+        ("items-const", "file", "const i8 c = 1;" * n),
+        ("items-struct", "file", "struct S{}" * n),
+        ("items-enum", "file", "enum E{A}" * n),
+        ("items-service", "file", "service S{}\n" * n),
+        ("items-nosep", "file", "const i8 c=1 " * n),
+        ("fields", "file", "struct S {" + "1:i8 a;" * n + "}"),
+        ("fields-nosep", "file", "struct S {" + " 1:i8 a" * n + "}"),
+        ("fields-full", "file", "union U {" + "1: optional list<i8> a = [1] (a = 'b'),\n" * (n // 4 + 1) + "}"),
+        ("fields-open", "file", "exception X {" + "1:i8 a," * n),
+        ("enum-values", "file", "enum E {" + "A," * n + "}"),
+        ("enum-values-eq", "file", "enum E {" + "A=1 " * n + "}"),
+        ("enum-values-ann", "file", "enum E {" + "A(a='b');" * n + "}"),
+        ("enum-open", "file", "enum E {" + "A," * n),
+        ("annotations", "file", "struct S{}(" + "a='b'," * n + ")"),
+        ("annotations-nosep", "file", "typedef i8 T (" + "a='b' " * n + ")"),
+        ("annotations-field", "field", "1: i8 a (" + "a.b=\"c\";" * n + ")"),
+        ("annotations-open", "annotations", "(" + "a='b'," * n),
+        ("list-elements", "file", "const list<i8> x = [" + "1," * n + "]"),
+        ("list-elements-nosep", "cv", "[" + "1 " * n + "]"),
+        ("list-elements-str", "cv", "[" + "'a';" * n + "]"),
+        ("list-elements-list", "cv", "[" + "[]," * n + "]"),
+        ("list-elements-map", "cv", "[" + "{}" * n + "]"),
+        ("list-open", "cv", "[" + "1," * n),
+        ("map-elements", "file", "const map<i8,i8> x = {" + "1:2," * n + "}"),
+        ("map-elements-nosep", "cv", "{" + "a:b " * n + "}"),
+        ("map-open", "cv", "{" + "1:2," * n),
+        ("signs-minus", "file", "const i64 x = " + "-" * n + "1"),
+        ("signs-mixed", "int", "-+" * (n // 2) + "1"),
+        ("signs-double", "double", "-" * n + "1.5"),
+        ("signs-enum", "file", "enum E { A = " + "-" * n + "1 }"),
+        ("path-segments", "file", "typedef a" + ".b" * n + " T"),
+        ("path-segments-const", "cv", "a" + ".b" * n),
+        ("path-segments-scope", "file", "namespace rs a" + ".b" * n),
+        ("path-segments-extends", "file", "service S extends a" + ".b" * n + " {}"),
+        ("args", "file", "service S { void f(" + "1: i8 a, " * n + ") }"),
+        ("throws", "function", "void f() throws (" + "1:E e;" * n + ")"),
+        ("functions", "file", "service S {" + "void f()," * n + "}"),
+        ("functions-nosep", "service", "service S {" + " oneway void f()" * n + "}"),
+        ("functions-open", "service", "service S {" + "void f();" * n),
+        ("escapes-single", "file", "const string s = '" + "\\n" * n + "'"),
+        ("escapes-double", "literal", "\"" + "\\\"" * n + "\""),
+        ("escapes-open", "literal", "'" + "\\'" * n),
+        ("digits", "int", "9" * n),
+        ("digits-hex", "int", "0x" + "f" * n),
+        ("digits-double", "double", "1" * n + "." + "2" * n + "e" + "3" * n),
+        ("digits-field-id", "field", "0" * n + "1: i8 a"),
+        ("ident", "file", "struct " + "a" * n + " {}"),
+        ("literal", "file", "include '" + "a" * n + "'"),
+        ("whitespace", "file", " \t\r\n" * n + "struct S{}"),
+        ("block-comment", "file", "/*" + "*/ /*" * n + "*/"),
+        ("block-comment-stars", "file", "/*" + "*" * n + "/ */"),
+        ("line-comment", "file", "#" * n),
+        ("cpp-types", "type", "list<" * 2 + "i8" + "> cpp_type 'x'" * 2 + " " * n),
+    ]
+    return out
+
+
+def nest_with_run(g, n, run):
+    """type and constant nests of depth n with `run` (a blank) before / after the innermost element: (what, entry, text)"""
+    tt, _ = g.nested_type(n)
+    ct, _ = g.nested_const(n)
+    t, c = ig.text_of(tt), ig.text_of(ct)
+    assert t.count("i32") == 1 and sum(1 for kd, tx in ct if (kd, tx) == ("num", "1")) == 1
+    tb, ta = t.replace("i32", run + "i32"), t.replace("i32", "i32" + run)
+    k = [j for j, tk in enumerate(ct) if tk == ("num", "1")][0]
+    cb = ig.text_of(ct[:k]) + run + ig.text_of(ct[k:])
+    ca = ig.text_of(ct[:k + 1]) + run + ig.text_of(ct[k + 1:])
+    return [("type-before", "type", tb), ("type-after", "type", ta), ("const-before", "cv", cb), ("const-after", "cv", ca),
+            ("doc", "file", "struct S {\n 1: required %s f = %s (a = 'b'),\n}\nservice X { %s m(1: %s a) throws (1: %s e) }\n" % (tb, ca, ta, tb, tb))]
+
+
+def flat_cases(rng, tier):
+    """(case_line, kind, depth): kind `flat-*` runs on the model too, kind `flatbig-*` (10^4 .. 10^5 pieces; the extracted model
+    needs seconds for each) on the implementation only; kind `deep-run-*` = nesting 64 with a long blank at the innermost element"""
+    q = tier == "quick"
+    g = ig.Gen(rng)
+    mid, big = 1500, 20000
+    out = [("file " + ig.hx(fill_template(-1, "")), "flat-template", None)]
+    for j, k in enumerate(BLANK_SLOTS):
+        # every blank place of the grammar: a medium run (3 ways) and a big one (implementation), the style rotating with the place
+        styles = [j + rng.randrange(len(BLANK_STYLES))] if q else range(len(BLANK_STYLES))
+        for st in styles:
+            nm = BLANK_STYLES[st % len(BLANK_STYLES)][0]
+            out.append(("file " + ig.hx(fill_template(k, blank_run(st, mid))), "flat-blank-" + nm, None))
+            out.append(("file " + ig.hx(fill_template(k, blank_run(st + 1, big))), "flatbig-blank-" + BLANK_STYLES[(st + 1) % len(BLANK_STYLES)][0], None))
+    for st in range(len(BLANK_STYLES)):
+        nm = BLANK_STYLES[st][0]
+        # a blank-only document, a fragment entry, and 10^5 pieces once per style
+        out.append(("file " + ig.hx(blank_run(st, mid)), "flat-blank-only-" + nm, None))
+        out.append(("file " + ig.hx(blank_run(st, 100000)), "flatbig-blank-only-" + nm, None))
+        out.append(("file " + ig.hx(blank_run(st, 100000) + "struct S{}"), "flatbig-blank-lead-" + nm, None))
+        out.append(("file " + ig.hx("struct S{" + blank_run(st, 100000)), "flatbig-blank-open-" + nm, None))
+        out.append(("type " + ig.hx("map<" + blank_run(st, mid) + "i8" + blank_run(st, mid) + ",i8>"), "flat-blank-frag-" + nm, None))
+        for n in ((64,) if q else (63, 64)):
+            # the stack budget is shared between the nesting and whatever a blank costs: run lengths below and above what
+            # a flat document tolerates
+            for pieces in (300, 1000, 2000):
+                for what, e, t in nest_with_run(g, n, blank_run(st, pieces)):
+                    out.append((e + " " + ig.hx(t), "deep-run-" + what, n))
+    for what, e, t in flat_repetitions(mid):
+        out.append((e + " " + ig.hx(t), "flat-rep-" + what, None))
+    for n in ((big,) if q else (big, 100000)):
+        for what, e, t in flat_repetitions(n):
+            out.append((e + " " + ig.hx(t), "flatbig-rep-" + what, None))
+    return out
+
+
 def gen_cases(rng, tier):
     """list of (case_line, kind, depth_or_None)"""
     q = tier == "quick"
@@ -192,6 +358,7 @@ def gen_cases(rng, tier):
         cases.append((c, "deep-" + what, n))
     for c, n, what in deep_cases(g, [65, 128, 256, 1024, 4096]):
         cases.append((c, "probe-" + what, n))
+    cases += flat_cases(rng, tier)
     for i in range(n_docs):
         mode = ("random", "random", "minimal", "maximal")[i % 4]
         toks, _ = ig.gen_document(rng, mode)
@@ -254,6 +421,9 @@ def oracle(line, kind, depth):
         return None                      # beyond the claimed nesting: recorded, not required
     if line.startswith("PANIC"):
         return "the parser panicked: " + line[:200]
+    if line.startswith("ABORT") and (kind.startswith("flat") or kind.startswith("deep-run-")):
+        return ("the parser killed its worker (stack overflow on a %d-byte stack) on a long flat repetition [%s, nesting %s]: the stack "
+                "needed grows with the LENGTH of a repetition, not only with the nesting: %s" % (STACK, kind, depth if depth else "<= 3", line[:100]))
     if line.startswith("ABORT"):
         return "the parser killed its worker (stack overflow on a %d-byte stack, nesting %s): %s" % (STACK, depth, line[:100])
     if line.startswith("CRASH"):
@@ -275,8 +445,12 @@ def run(chk, replay=None):
     chk.cov["rule"] = ("case = <parser entry> <text>; texts: valid generated documents (3 layouts), every single-token mutation kind of "
                        "pv/idlgen.py applied to documents and to fragments of 19 sub-parsers, numbers inflated to 11/20/40 digits, "
                        "unterminated comments/strings, type and constant nests of depth 1..64 (stand-alone, inside documents, "
-                       "unterminated), random UTF-8 of 1 B .. 64 KiB, valid prefix + junk; every case runs on the implementation "
-                       "(2 MiB worker stack, child process) and on the extracted model and the result lines are compared; "
+                       "unterminated), random UTF-8 of 1 B .. 64 KiB, valid prefix + junk; long flat repetition: a run of 1500 and of "
+                       "2*10^4 comment / white-space pieces (6 styles) at each of the %d blank places of a document that uses every "
+                       "production, alone and at the innermost element of a 64-deep nest, and every repeatable production "
+                       "(items, fields, enum values, annotations, list / map elements, signs, path segments, arguments, throws, "
+                       "functions, escapes, digits) repeated 1500 / 2*10^4 / 10^5 times; every case runs on the implementation " % len(BLANK_SLOTS) +
+                       "(2 MiB worker stack, child process) and, except the 2*10^4- and 10^5-fold repetitions, on the extracted model and the result lines are compared; "
                        "non-trivial = the text is not accepted as a whole or nests >= 8; distinct by SHA-1 of the case line")
     bins = []
     if hb:
@@ -299,15 +473,29 @@ def run(chk, replay=None):
         if st != want:
             chk.violation("harness self-test of the std facts the model relies on failed: got '%s', want '%s'" % (st, want),
                           dict(kind="selftest", got=st, want=want), no_input=True)
+    if replay is None:
+        miss, ndefs = unmapped_model_parsers()
+        chk.cov["repetition_sites"] = dict(
+            theorem="C16_repetition_is_iteration", model_parser_definitions=ndefs, unmapped=miss,
+            note="src_rep_sites / src_recursive / nom_loop_combinators (Generated/IdlReps.v, regenerated from the Rust text) against the "
+                 "inventory Ltac computes from the definitions of Parser.v; every p_* definition of Parser.v must occur in the map of Proofs/RepSites.v")
+        if miss or not ndefs:
+            chk.violation("Proofs/RepSites.v does not map these parser definitions of Parser.v to a function of the source: %s" % ", ".join(miss),
+                          dict(kind="rep-sites-map", unmapped=miss), no_input=True)
     t0 = time.time()
     model = None
     if os.path.exists(FAM.runner):
-        model = [norm(l) for l in core.run_lines(FAM.runner, lines, timeout=1500)]
+        # the extracted model needs seconds per 64 KiB text: the `flatbig-*` texts (10^4 .. 10^5 repetitions) run on the
+        # implementation only -- what is asked of them is the oracle (no overflow, no panic), their 1500-fold versions are compared
+        midx = [i for i, (_, k, _) in enumerate(cases) if replay is not None or not k.startswith("flatbig-")]
+        model = [None] * len(lines)
+        for i, o in zip(midx, core.run_lines(FAM.runner, [lines[i] for i in midx], timeout=1500)):
+            model[i] = norm(o)
     # model only: the least depth fuel C16_depth allows (nesting + 1) gives the same result as |s| + 1, and the
     # nesting measure is what it is meant to be on the texts nested by construction
     fuel_mism, nest_mism = [], []
     if model is not None:
-        fidx = [i for i, l in enumerate(lines) if l.startswith("file ")]
+        fidx = [i for i, l in enumerate(lines) if l.startswith("file ") and model[i] is not None]
         fmin = [norm(l) for l in core.run_lines(FAM.runner, ["filemin " + lines[i][5:] for i in fidx], timeout=1500)]
         for i, o in zip(fidx, fmin):
             if o != model[i]:
@@ -324,6 +512,7 @@ def run(chk, replay=None):
     failing, mism = [], []
     dist_out = Counter()
     probes = {}
+    flat_ok = [0, 0]
     for prof, b in bins:
         t0 = time.time()
         impl = core.run_lines(b, lines, timeout=900, args=("--stack", str(STACK)))
@@ -334,18 +523,21 @@ def run(chk, replay=None):
                 failing.append((c, kind, depth, "%s [%s build]" % (why, prof), o))
             if prof == "debug":
                 dist_out[outcome_class(o)] += 1
-            if kind.startswith("probe-") or kind.startswith("deep-"):
+            if prof == "debug" and (kind.startswith("flat-blank-") or kind.startswith("flatbig-blank-") or kind.startswith("deep-run-")):
+                # generator sanity: these are valid texts (only `...-open-*` is cut short); a rejected one does not test a blank place
+                flat_ok[0 if (o.startswith("OK 0 ") or "-open-" in kind) else 1] += 1
+            if (kind.startswith("probe-") or kind.startswith("deep-")) and not kind.startswith("deep-run-"):
                 probes.setdefault(prof, {}).setdefault(kind.split("-", 1)[1], {})[str(depth)] = o.split(" ")[0]
-            if model is not None and not (kind.startswith("probe-") and o.startswith("ABORT")):
+            if model is not None and model[idx] is not None and not (kind.startswith("probe-") and o.startswith("ABORT")):
                 if norm(o) != model[idx]:
                     mism.append((c, kind, o, model[idx], prof))
     for (c, kind, depth), idx in zip(cases, range(len(cases))):
-        nontrivial = not (model is not None and model[idx].startswith("OK 0 ")) or (depth or 0) >= 8
+        nontrivial = not (model is not None and (model[idx] or "").startswith("OK 0 ")) or (depth or 0) >= 8 or kind.startswith("flat")
         chk.count(c, nontrivial)
     for i in (0, len(cases) // 3, len(cases) // 2, len(cases) - 1):
         c = cases[i][0]
         chk.sample(dict(case=c[:160] + ("..." if len(c) > 160 else ""), kind=cases[i][1],
-                        model=(model[i][:120] if model else None)))
+                        model=(model[i][:120] if model and model[i] else None)))
     sizes = [(len(c.split(" ")[1]) // 2 if c.split(" ")[1] != "-" else 0) for c in lines]
     chk.cov["disagreements_checked"] = len(cases) * len(bins)
     chk.cov["model_impl_mismatches"] = len(mism)
@@ -356,12 +548,21 @@ def run(chk, replay=None):
         size_bytes=dict(max=max(sizes), total=sum(sizes), ge_1k=sum(1 for s in sizes if s >= 1024), ge_64k=sum(1 for s in sizes if s >= 65536)),
         share_not_accepted=round(1 - dist_out.get("ok", 0) / max(1, len(cases)), 3),
         entries=dict(Counter(c.split(" ")[0] for c in lines)))
+    fk = Counter(k.split("-")[0] + "-" + k.split("-")[1] for _, k, _ in cases if k.startswith("flat") or k.startswith("deep-run-"))
+    chk.cov["flat_repetition"] = dict(
+        blank_run_texts_accepted=flat_ok[0], blank_run_texts_rejected=flat_ok[1], blank_places=len(BLANK_SLOTS), blank_styles=[n for n, _, _ in BLANK_STYLES], cases=dict(fk),
+        repeated_productions=sorted(set(k[len("flat-rep-"):] for _, k, _ in cases if k.startswith("flat-rep-"))),
+        note="flat-*: 1500 repetitions, implementation and model compared; flatbig-*: 2*10^4 / 10^5 repetitions, implementation "
+             "only (oracle: an answer on the 2 MiB stack); deep-run-*: nesting 64 with a blank of 300 / 1000 / 2000 pieces before / after the innermost element")
     chk.cov["stack_probe"] = dict(stack_bytes=STACK, claimed_depth=CLAIM_DEPTH, outcome_by_depth=probes,
                                   note="depths <= 64 are required to parse; larger depths are probes (ABORT = stack overflow of the worker)")
+    if flat_ok[1] and not failing:
+        chk.notes.append("%d of the texts with a long blank run at a blank place were not accepted as a whole (generator out of date?)" % flat_ok[1])
     # report
     seen = set()
+    failing.sort(key=lambda f: len(f[0]))           # the shortest failing text first
     for c, kind, depth, why, o in failing:
-        key = why.split(":")[0]
+        key = why.split(":")[0].split("[")[0]
         if key in seen:
             continue
         seen.add(key)
